@@ -54,7 +54,22 @@ func lbGenSpec(r *core.Rand, flavour int) []string {
 	return sp
 }
 
-func lbGenSteps(r *core.Rand, n int, focus string) []lbStep {
+// lbGenAddrs fills an UpdateAddresses step: one or two addresses (indexes into
+// the run's address list; the policy drops those that another live SubConn
+// holds), now and then the empty list.
+func lbGenAddrs(r *core.Rand, st *lbStep) {
+	st.Op = "addrs"
+	st.Addrs = []int{r.Intn(4)}
+	if r.Chance(1, 3) {
+		st.Addrs = append(st.Addrs, r.Intn(4))
+	}
+	st.ViaCC = r.Chance(1, 3)
+	if r.Chance(1, 16) {
+		st.Op, st.Addrs = "addrs_empty", nil
+	}
+}
+
+func lbGenSteps(r *core.Rand, n int, focus string, upd bool) []lbStep {
 	var out []lbStep
 	for k := 0; k < n; k++ {
 		st := lbStep{AtNs: int64(r.LogUniform(1, 30000000)), SC: r.Intn(3)}
@@ -67,14 +82,19 @@ func lbGenSteps(r *core.Rand, n int, focus string) []lbStep {
 		var ops []string
 		switch focus {
 		case "C30":
-			ops = []string{"connect", "shutdown", "shutdown", "newsc", "newsc", "publish", "spec", "state", "state"}
+			ops = []string{"connect", "shutdown", "shutdown", "newsc", "newsc", "publish", "spec", "state", "state", "addrs"}
 		case "C32":
 			ops = []string{"publish", "publish", "publish", "spec", "spec", "spec", "connect", "shutdown", "newsc", "state"}
 		default:
 			ops = []string{"publish", "spec", "spec", "connect", "shutdown", "newsc", "state"}
 		}
+		if upd {
+			ops = append(ops, "addrs", "addrs", "addrs", "connect")
+		}
 		st.Op = core.Pick(r, ops...)
 		switch st.Op {
+		case "addrs":
+			lbGenAddrs(r, &st)
 		case "spec":
 			st.Spec = lbGenSpec(r, core.Pick(r, 0, 0, 1, 1, 2, 3, 4))
 		case "state":
@@ -147,7 +167,12 @@ func lbWarm(seed uint64, k int) *Scenario {
 		{AtNs: 10 * ms, Op: "spec", Spec: []string{"nosc", "notready", "shut"}},
 		{AtNs: 10 * ms, Op: "spec", Spec: []string{"lazy", "ready", "any", "ready_nodone"}},
 		{AtNs: 5 * ms, Op: "shutdown", SC: 1},
-		{AtNs: 5 * ms, Op: "newsc", SC: 1},
+		{AtNs: 1 * ms, Op: "addrs", SC: 0, Addrs: []int{1}},
+		{AtNs: 0, Op: "addrs", SC: 0, Addrs: []int{1, 0}, ViaCC: true},
+		{AtNs: 2 * ms, Op: "addrs", SC: 0, Addrs: []int{0}},
+		{AtNs: 2 * ms, Op: "newsc", SC: 1},
+		{AtNs: 0, Op: "addrs_empty", SC: 2},
+		{AtNs: 1 * ms, Op: "addrs", SC: 2, Addrs: []int{2}},
 		{AtNs: 1 * ms, Op: "state", State: 4},
 		{AtNs: 0, Op: "state", State: 2},
 		{AtNs: 0, Op: "state"},
@@ -162,13 +187,22 @@ func lbWarm(seed uint64, k int) *Scenario {
 		Cancels:  []lbCancelCfg{{RPC: 9, AtNs: 1 * ms}},
 	}
 	s.Actions = []Action{{AtNs: 60 * ms, Kind: "connect"}, {AtNs: 61 * ms, Kind: "reset_backoff"}}
+	hc := &lbHealthCfg{Init: []int{1, 2, 1}, DelayNs: ms / 2, Steps: []lbHealthStep{
+		{AtNs: 5 * ms, Status: 2}, {AtNs: 3 * ms, Status: 1}, {AtNs: 10 * ms, Addr: 2, Status: 3}, {AtNs: 4 * ms, Addr: 1, Status: 0},
+		{AtNs: 3 * ms, Status: 1}, {AtNs: 10 * ms, Addr: 1, Status: 5}, {AtNs: 5 * ms, Addr: 2, Status: 4}, {AtNs: 50 * ms, Status: 1},
+		{AtNs: 200 * ms, Addr: 1, Status: 2}, {AtNs: 20 * ms, Status: 1},
+	}}
 	switch k % 3 {
 	case 0:
 		s.Actions = append(s.Actions, Action{AtNs: 350 * ms, Kind: "graceful_stop"})
 	case 1:
+		cfg.Health = hc
+		cfg.Insts[0].HCMask, cfg.Insts[1].HCMask = 255, 255
 		s.Faults = []simnet.Fault{{Kind: "reset", Conn: 0, Dir: "both", AtNs: 45 * ms}, {Kind: "cut_after", Conn: 1, Dir: "c2s", Bytes: 200}}
 		s.Actions = append(s.Actions, Action{AtNs: 350 * ms, Kind: "stop"})
 	default:
+		cfg.Health = hc
+		cfg.Insts[0].HCMask, cfg.Insts[1].HCMask = 5, 2
 		s.Client.IdleNs = 20 * ms
 		s.Faults = []simnet.Fault{{Kind: "dial_fail", Conn: 0}, {Kind: "dial_hang", Conn: 3}}
 	}
@@ -192,7 +226,24 @@ func lbGen(seed uint64, tier string, focus string) *Scenario {
 	if r.Chance(1, 2) {
 		s.Net.DialDelayNs = int64(core.Pick(r, 1000, 100000, 5000000))
 	}
+	// flavours that widen the world: the policy re-targets SubConns with
+	// UpdateAddresses while dials are slow or hang; SubConns are health-checked
+	// against backends whose serving status flips
+	upd := r.Chance(1, 8)
+	health := false
+	switch focus {
+	case "C30":
+		upd = r.Chance(1, 3)
+	case "C32":
+		health = r.Chance(2, 5)
+	}
+	if upd {
+		s.Net.DialDelayNs = int64(core.Pick(r, 0, 100000, 5000000, 5000000, 50000000))
+	}
 	naddr := r.Range(1, 3)
+	if upd {
+		naddr = r.Range(2, 3)
+	}
 	all := []string{"srv0", "srv1", "srv2"}
 	addrs := append([]string{}, all[:naddr]...)
 	s.Listeners = append([]string{}, all[1:naddr]...)
@@ -224,8 +275,41 @@ func lbGen(seed uint64, tier string, focus string) *Scenario {
 		default:
 			ic.Spec = lbGenSpec(r, core.Pick(r, 0, 0, 1, 2, 3))
 		}
-		ic.Steps = lbGenSteps(r, r.Range(0, maxSteps), focus)
+		ic.Steps = lbGenSteps(r, r.Range(0, maxSteps), focus, upd)
+		if upd {
+			// leave addresses free for UpdateAddresses, and call it early: while
+			// the first dials are on their way
+			ic.InitSCs = r.Range(1, naddr-1)
+			if r.Chance(7, 8) {
+				ic.AutoConnect = true
+			}
+			var early []lbStep
+			for n := r.Range(1, 3); n > 0; n-- {
+				st := lbStep{AtNs: int64(r.LogUniform(1, int(2*s.Net.DialDelayNs+2*s.Net.LatencyNs+1000))), SC: r.Intn(3)}
+				lbGenAddrs(r, &st)
+				early = append(early, st)
+			}
+			ic.Steps = append(early, ic.Steps...)
+		}
+		if health {
+			ic.HCMask = core.Pick(r, 255, 255, 255, r.Range(1, 255))
+		}
 		cfg.Insts = append(cfg.Insts, ic)
+	}
+	if health {
+		h := &lbHealthCfg{DelayNs: int64(core.Pick(r, 0, 0, 1000, 1000000, 50000000))}
+		status := func() int { return core.Pick(r, 1, 1, 1, 2, 2, 2, 0, 3, 4, 5) }
+		for k := 0; k < naddr; k++ {
+			h.Init = append(h.Init, status())
+		}
+		for n := r.Range(0, 5); n > 0; n-- {
+			h.Steps = append(h.Steps, lbHealthStep{AtNs: int64(r.LogUniform(1000, 50000000)), Addr: r.Intn(naddr + 1), Status: status()})
+		}
+		if r.Chance(3, 4) {
+			// most backends end up healthy so that queued RPCs get out
+			h.Steps = append(h.Steps, lbHealthStep{AtNs: int64(r.LogUniform(1000, 50000000)), Status: 1})
+		}
+		cfg.Health = h
 	}
 
 	// RPCs
@@ -343,6 +427,9 @@ func lbGen(seed uint64, tier string, focus string) *Scenario {
 	default:
 		nf = r.Range(1, 3)
 	}
+	if upd && nf == 0 && r.Chance(1, 2) {
+		nf = 1
+	}
 	for k := 0; k < nf; k++ {
 		var kinds []string
 		switch focus {
@@ -352,6 +439,9 @@ func lbGen(seed uint64, tier string, focus string) *Scenario {
 			kinds = []string{"dial_fail", "dial_fail", "dial_hang", "reset", "reset", "cut_after", "cut_hdr", "half_close"}
 		default:
 			kinds = []string{"reset", "reset", "cut_hdr", "dial_fail", "dial_hang", "cut_after"}
+		}
+		if upd {
+			kinds = append(kinds, "dial_hang", "dial_hang", "dial_fail")
 		}
 		kind := core.Pick(r, kinds...)
 		f := simnet.Fault{Kind: kind, Conn: r.Intn(4), Dir: "both"}
